@@ -207,7 +207,14 @@ func c08pipeModel(c *Ctx, ruleMirror, ruleHop, ruleState string) {
 		"M":  {"M", "+proj=tmerc +lat_0=P3 +lon_0=P4 +k_0=P13 +a=P7 +rf=P8 +no_defs", false, nil, nil, false},
 		"D3": {"D3", "+proj=merc +lon_0=P4 +a=P7 +rf=P8 +towgs84=P9,P10,P11 +no_defs", false, nil, nil, false},
 		"D7": {"D7", "+proj=lcc +lat_1=P1 +lat_2=P2 +lat_0=P3 +lon_0=P4 +a=P7 +rf=P8 +towgs84=P21,P22,P23,P24,P25,P26,P27 +no_defs", false, nil, nil, false},
+		// a shifted datum and a prime meridian on the same side
+		"PD": {"PD", "+proj=longlat +a=P7 +rf=P8 +pm=P31 +towgs84=P9,P10,P11 +no_defs", true, nil, polyVar("p31"), false},
+		"QD": {"QD", "+proj=merc +lon_0=P4 +a=P7 +rf=P8 +to_meter=P34 +pm=P32 +towgs84=P21,P22,P23,P24,P25,P26,P27 +no_defs", false, polyVar("p34"), polyVar("p32"), false},
 	}
+	// the WGS84 reference the pipeline goes through when one side has a shifted datum and the other
+	// is not WGS84 itself
+	wgs := refDef{"W(WGS84)", "", true, nil, nil, false}
+	shifted := map[string]bool{"D3": true, "D7": true, "PD": true, "QD": true}
 	callT := func(t oval, x, y poly) ([]oval, string) {
 		c.Evals(1)
 		args := []oval{oSym{x}, oSym{y}}
@@ -236,7 +243,7 @@ func c08pipeModel(c *Ctx, ruleMirror, ruleHop, ruleState string) {
 			c.OK(rule, cons, pos, "%s", okText)
 		}
 	}
-	for _, pair := range [][2]string{{"A", "B"}, {"B", "A"}, {"G", "B"}, {"A", "G"}, {"G", "H"}, {"M", "A"}, {"F", "A"}, {"A", "F"}} {
+	for _, pair := range [][2]string{{"A", "B"}, {"B", "A"}, {"G", "B"}, {"A", "G"}, {"G", "H"}, {"M", "A"}, {"F", "A"}, {"A", "F"}, {"PD", "B"}, {"A", "QD"}, {"PD", "QD"}} {
 		a, b := refs[pair[0]], refs[pair[1]]
 		cons := "proj.(*SR).NewTransform#pipeline(" + a.label + "→" + b.label + ")"
 		var v, st verdictT
@@ -282,6 +289,11 @@ func c08pipeModel(c *Ctx, ruleMirror, ruleHop, ruleState string) {
 				break
 			}
 			wx, wy := spec(a, b, x, y)
+			if shifted[a.label] || shifted[b.label] {
+				// two legs: to WGS84 (degrees) and on from there
+				ux, uy := spec(a, wgs, x, y)
+				wx, wy = spec(wgs, b, ux, uy)
+			}
 			if !symRationalEqual(gx, wx) || !symRationalEqual(gy, wy) {
 				v.bad = fmt.Sprintf("the reprojection %s → %s of (x, y) gives\n      x' = %.300s\n    where the stages mirrored around the datum shift give\n      x' = %.300s\n    (unit of the source multiplies and of the destination divides, each prime meridian is added on its own side, the source's inverse and the destination's forward member are used, geographic systems convert degrees ↔ radians)", a.label, b.label, gx.canon(), wx.canon())
 			}
